@@ -1,4 +1,5 @@
 """C06 — typed values are fixed points of convert."""
+import re
 import typing as t
 
 from .. import env, genval, gentypes, drive, deepeq, native, model
@@ -48,6 +49,12 @@ def fixed_point(T, x):
 def classify(ty, x):
     if ty.k == 'range' or type(x).__name__ == 'Range':
         return 'range-helper-not-a-fixed-point'
+    if ty.k == 'pattern' and isinstance(x, re.Pattern):
+        try:
+            if x.flags != re.compile(x.pattern).flags:
+                return 'pattern-flags-not-serialised'      # flags given to re.compile(), not written in the pattern text
+        except Exception:
+            pass
     if ty.k == 'union':
         U = build(ty)
         members = t.get_args(U)
